@@ -14,7 +14,7 @@ struct VfRelation {
 };
 struct VfCompound {   // a quantity type that has +=, -= with itself and *=, /= with a number: histories
   const char* name; int nt; int ncomp; int kind;
-  // ops: 0 '+= q', 1 '-= q', 2 '*= n', 3 '/= n'; args: 9 numbers per op (q's components or n); mode 0: compound assignments, 1: x = x op y
+  // ops: 0 '+= q', 1 '-= q', 2 '*= n', 3 '/= n', 4 'x += x', 5 'x -= x', 6 self copy-assignment, 7 move-assignment from a copy of itself; args: 9 numbers per op (q's components or n); mode 0: compound assignments, 1: x = x op y
   void (*run)(const VfLD* init, const int* ops, const VfLD* args, int nops, int mode, VfLD* after_each, VfLD* stored_args);
 };
 struct VfStdFn {      // std::f(q) for a dimensionless scalar quantity type
